@@ -145,6 +145,12 @@ InitD(i) ==
   ELSE IF i.dom = "windy" THEN LET st == LocsUp(i, Range(i.start)) IN {<<st[k], 1>> : k \in 1..Len(st)}
   ELSE LET s0 == LocsDown(i, {"s"})[1] IN {<< <<s0[1], s0[2], "g">>, 1 >>, << <<s0[1], s0[2], "h">>, 1 >>}
 
+\* (R) ownership: the queries whose result is a new object on every call, so that a caller editing a
+\* returned container in place does not edit the model.  LoadUnload.actions hands out the class-level
+\* action list (the same object every time).  Implementation-shaped: differences are DRIFT.
+Fresh(i) == {"initial_state_dist", "next_state_dist", "observation_dist"}
+            \cup (IF i.dom = "loadunload" THEN {} ELSE {"actions"})
+
 \* ------------------------------------------------------------------ machine
 Init ==
   /\ d \in {[Batch[k] EXCEPT !.iid = k] : k \in 1..Len(Batch)}
@@ -163,7 +169,7 @@ Emit ==
   PrintT(ToJson([iid |-> d.iid, s |-> cur, abs |-> IF Absorbing(d, cur) THEN 1 ELSE 0, den |-> Den(d),
                  rows |-> [k \in 1..Len(Acts(d)) |-> [a |-> Acts(d)[k], outs |-> Dyn(d, cur, Acts(d)[k])]],
                  obs |-> IF IsPomdp(d) THEN [k \in 1..Len(Acts(d)) |-> Obs(d, Acts(d)[k], cur)] ELSE <<>>,
-                 init |-> InitD(d)]))
+                 init |-> InitD(d), fresh |-> Fresh(d)]))
 
 \* ------------------------------------------------------------------ (P) model-level properties
 SumW(S) == LET RECURSIVE Go(_)
